@@ -18,7 +18,7 @@ Definition fpair_eqb (a b : float * float) : bool := feq (fst a) (fst b) && feq 
 Definition res_eqb {A} (eqb : A -> A -> bool) (a b : res A) : bool :=
   match a, b with
   | Ok x, Ok y => eqb x y
-  | Err e, Err f => err_eqb e f
+  | Err _, Err _ => true   (* a refusal is compared as a refusal: its exception class is not part of the property *)
   | _, _ => false
   end.
 
